@@ -153,6 +153,8 @@ func c05Causes() []c05Cause {
 		{"mux-false", kitServeCfg{PreServe: line("1|3|tcp|127.0.0.1:1|grpc||false")}, both, true, 5 * time.Second},
 		{"mux-unparsable", kitServeCfg{PreServe: line("1|3|tcp|127.0.0.1:1|grpc||maybe")}, both, true, 5 * time.Second},
 		{"incompatible-version-real", kitServeCfg{Sets: map[string]string{"7": "netrpc"}}, both, false, 5 * time.Second},
+		{"std-streams-closed-alive", kitServeCfg{PreServe: "closehang:"}, both, false, 5 * time.Second},
+		{"std-streams-closed-alive-after-partial-line", kitServeCfg{PreServe: "closehang:" + hxs("1|3|un")}, both, false, 5 * time.Second},
 	}
 }
 
